@@ -313,13 +313,21 @@ pub fn gen_scenario(rng: &mut Rng) -> Sc7 {
   } else {
     (0, None, vec![])
   };
+  let loss_disc_ppm = if rng.chance(1, 4) { *rng.pick(&[20_000u32, 50_000, 100_000]) } else { 0 };
+  let loss_ppm = *rng.pick(&[0u32, 10_000, 50_000, 100_000, 200_000]);
+  // one scenario in six (drawn last: everything else is what the same seed always gave): the well-known
+  // user-traffic port of one participant id is already in use when the participants are created
+  let mut acts = acts;
+  if rng.chance(1, 6) {
+    acts.insert(0, Act::OccupyUserPort(rng.below(nparts as u64 + 1) as u16));
+  }
   Sc7 {
     with_key,
     nparts,
     eps,
     acts,
-    loss_disc_ppm: if rng.chance(1, 4) { *rng.pick(&[20_000u32, 50_000, 100_000]) } else { 0 },
-    loss_ppm: *rng.pick(&[0u32, 10_000, 50_000, 100_000, 200_000]),
+    loss_disc_ppm,
+    loss_ppm,
     main,
     late,
     late_new_part,
